@@ -272,6 +272,38 @@ def listed_files(meta):
     return out
 
 
+def partial_slice_model(meta, world, pl):
+    """Known-finding defect model for v1 rebuilds (see known_findings.json):
+    returns (wrong_files, all_explained).  A destination file that differs from the genuine payload is 'explained'
+    when (a) its bytes are those of another search-directory file of the same base name and size and (b) it agrees
+    with the genuine file on the slice of the file that lies in the first piece containing it - the only slice the
+    matcher verified before copying the whole candidate and marking the file as done."""
+    if meta["version"] != 1 or meta["tree"]["single"]:
+        return [], False
+    wrong, explained = [], True
+    offset = 0
+    for full, length, *_ in listed_files(meta):
+        rel = os.path.relpath(full, meta["tree"]["name"])
+        op = os.path.join(meta["root"], rel)
+        dp = os.path.join(world["dest"], full)
+        start = offset
+        offset += length
+        if not (os.path.isfile(op) and os.path.isfile(dp)):
+            continue
+        with open(op, "rb") as fd:
+            orig = fd.read()
+        with open(dp, "rb") as fd:
+            got = fd.read()
+        if got == orig:
+            continue
+        first = min(length, pl - start % pl)
+        is_copy = hashlib.sha256(got).hexdigest() in world["search_files"].get(os.path.basename(full), set())
+        ok = is_copy and len(got) == length and first < pl and got[:first] == orig[:first]
+        wrong.append({"file": full, "first_slice_bytes": first, "explained": ok})
+        explained &= ok
+    return wrong, bool(wrong) and explained
+
+
 def _reach():
     rebuild, utils = drive.mod("rebuild"), drive.mod("utils")
     r = env.Reach()
@@ -324,6 +356,13 @@ class C13:
 
     @staticmethod
     def gen(rng, tier, i):
+        if i == 0:
+            # pinned witness of the known finding 'rebuild-v1-candidate-accepted-on-partial-slice' (three same-named,
+            # same-sized files, the last one entering its first piece with a single byte on which a wrong candidate
+            # agrees): reproduced on every run so that the finding is re-confirmed, not merely remembered
+            import json
+            with open(os.path.join(os.path.dirname(os.path.abspath(__file__)), "witness_c13_partial.json")) as fd:
+                return json.load(fd)
         return gen_scenario(rng, tier)
 
     @staticmethod
@@ -386,7 +425,9 @@ class C13:
                 ref = rt.recheck(m["raw"], droot)
                 counters["dest_trees_verified"] = counters.get("dest_trees_verified", 0) + 1
                 if ref["fraction"] is not None and ref["fraction"] != 100 and not missing:
-                    viol.append(oracles.V("dest-does-not-verify", version=m["version"], percent=float(ref["fraction"])))
+                    wrong, explained = partial_slice_model(m, world, pl)
+                    viol.append(oracles.V("dest-does-not-verify", version=m["version"], percent=float(ref["fraction"]),
+                                          wrong_files=wrong, matches_partial_slice_model=explained))
             if isinstance(oc.ret, int) and oc.ret > present:
                 viol.append(oracles.V("count-exceeds-files-present", returned=oc.ret, present=present,
                                       listed=total_listed))
@@ -404,6 +445,7 @@ class C13:
         if 0 in sizes:
             counters["empty_file_cases"] = 1
         nontrivial = len(sizes) >= 2 or bool(case["decoys"]) or any(s and s % pl == 0 for s in sizes)
+        # the count check is a consequence of the same wrong placement only if every listed file is present
         return {"violations": viol, "counters": counters, "reach": reach.collect(), "nontrivial": nontrivial,
                 "sig": _scenario_sig(case),
                 "sample": {"torrents": [[t["version"], t["tree"]["layout"], [[f[0], f[1]] for f in t["tree"]["files"][:6]]]
@@ -413,6 +455,9 @@ class C13:
 
     @staticmethod
     def classify(case, v):
+        d = v.get("detail", {})
+        if v.get("kind") == "dest-does-not-verify" and d.get("version") == 1 and d.get("matches_partial_slice_model") is True:
+            return "rebuild-v1-candidate-accepted-on-partial-slice"
         return None
 
 
@@ -523,7 +568,17 @@ class C14:
                     viol.append(oracles.V("decoy-placed", path=rel, run=rep))
                 elif size and rel in world["placed_expect"] and dig != world["placed_expect"][rel][1] and \
                         size == world["placed_expect"][rel][0]:
-                    viol.append(oracles.V("non-verifying-same-size-file-placed", path=rel, run=rep))
+                    # the statement forbids placing a file NONE of whose bytes verify; a candidate that agrees with
+                    # the genuine file on the slice lying in the first piece containing it did verify there
+                    partly = False
+                    for m in world["metas"]:
+                        for w in partial_slice_model(m, world, 2 ** case["pl_exp"])[0]:
+                            if w["file"] == rel and w["explained"]:
+                                partly = True
+                    if partly:
+                        counters["placed_after_partial_verification"] = counters.get("placed_after_partial_verification", 0) + 1
+                    else:
+                        viol.append(oracles.V("non-verifying-same-size-file-placed", path=rel, run=rep))
         if decoy_first:
             counters["decoy_met_first"] = 1
         nontrivial = bool(world["prepop"]) or bool(case["decoys"]) or case["repeats"] > 1
